@@ -135,6 +135,13 @@ type gcsWorld struct {
 	skipState bool
 	lastGen   map[string]int64
 	trace     []string // HTTP exchange log of the last step (for reports)
+	exch      []exchange
+	restart   bool // C09: replace the emulator by a fresh instance on the same directory after every step
+}
+
+type exchange struct {
+	Req  gcs.HTTPReq
+	Resp gcs.HTTPResp
 }
 
 var gcsDirSeq int
@@ -168,6 +175,7 @@ func (w *gcsWorld) Reopen() {
 
 func (w *gcsWorld) do(r gcs.HTTPReq) gcs.HTTPResp {
 	resp := w.drv.Do(r)
+	w.exch = append(w.exch, exchange{r, resp})
 	b := resp.Body
 	if len(b) > 200 {
 		b = b[:200]
@@ -236,9 +244,13 @@ func checkErrBody(r gcs.HTTPResp) string {
 // the first disagreement ("" if none) and a coarse class.
 func (w *gcsWorld) Step(o *GOp, check bool) (string, string) {
 	w.trace = w.trace[:0]
+	w.exch = w.exch[:0]
 	m, cl := w.step(o)
 	if m != "" {
 		return m, cl
+	}
+	if w.restart {
+		w.Reopen()
 	}
 	if check && !w.skipState {
 		if m := w.CompareState(); m != "" {
@@ -311,10 +323,18 @@ func (w *gcsWorld) step(o *GOp) (string, string) {
 		if ct := r.Header.Get("Content-Type"); ct != v.ContentType {
 			return fail("header", "Content-Type header %q, want %q", ct, v.ContentType)
 		}
-		if g := r.Header.Get("X-Goog-Generation"); g != strconv.FormatInt(v.Generation, 10) {
+		if v.Generation == 0 {
+			// generation not known to the model yet (object that appeared outside the API): adopt it
+			if g, err := strconv.ParseInt(r.Header.Get("X-Goog-Generation"), 10, 64); err == nil {
+				obj.V.Generation = g
+				if g > mdl.MaxGen[o.Bucket+"/"+o.Name] {
+					mdl.MaxGen[o.Bucket+"/"+o.Name] = g
+				}
+			}
+		} else if g := r.Header.Get("X-Goog-Generation"); g != strconv.FormatInt(v.Generation, 10) {
 			return fail("header", "X-Goog-Generation header %q, want %d", g, v.Generation)
 		}
-		if g := r.Header.Get("X-Goog-Metageneration"); g != strconv.FormatInt(v.Metageneration, 10) {
+		if g := r.Header.Get("X-Goog-Metageneration"); v.Metageneration != 0 && g != strconv.FormatInt(v.Metageneration, 10) {
 			return fail("header", "X-Goog-Metageneration header %q, want %d", g, v.Metageneration)
 		}
 		return "", ""
@@ -342,6 +362,13 @@ func (w *gcsWorld) step(o *GOp) (string, string) {
 		}
 		if d := gcs.DiffView(*got, *want, !mdl.Get(o.Bucket, o.Name).Composite); d != "" {
 			return fail("meta", "metadata differs: %s", d)
+		}
+		if want.Generation == 0 {
+			mo := mdl.Get(o.Bucket, o.Name)
+			mo.V.Generation = got.Generation
+			if got.Generation > mdl.MaxGen[o.Bucket+"/"+o.Name] {
+				mdl.MaxGen[o.Bucket+"/"+o.Name] = got.Generation
+			}
 		}
 		return "", ""
 	case "Patch":
@@ -469,7 +496,13 @@ func (w *gcsWorld) step(o *GOp) (string, string) {
 			return fail("body", "cannot parse rewrite resource: %v", err)
 		}
 		n := strconv.Itoa(len(exp.Body))
-		if !rr.Done || rr.TotalBytesRewritten.String() != n || rr.ObjectSize.String() != n {
+		num := func(j json.Number) string { // an omitted count is 0 (JSON omits zero values)
+			if j.String() == "" {
+				return "0"
+			}
+			return j.String()
+		}
+		if !rr.Done || num(rr.TotalBytesRewritten) != n || num(rr.ObjectSize) != n {
 			return fail("resp", "rewrite response done=%v totalBytesRewritten=%s objectSize=%s, want done, %s, %s", rr.Done, rr.TotalBytesRewritten, rr.ObjectSize, n, n)
 		}
 		srcComposite := mdl.Get(o.Bucket, o.Name).Composite
@@ -482,6 +515,30 @@ func (w *gcsWorld) step(o *GOp) (string, string) {
 		return "", ""
 	case "List":
 		return w.stepList(o)
+	case "DropSidecar":
+		// external removal of the metadata sidecar of an object (file store): the content file must still be served
+		obj := mdl.Get(o.Bucket, o.Name)
+		if obj == nil || w.dir == "" {
+			return "", ""
+		}
+		if err := os.Remove(filepath.Join(w.dir, o.Bucket, o.Name) + ".emumeta"); err != nil && !os.IsNotExist(err) {
+			return fail("internal", "cannot remove sidecar: %v", err)
+		}
+		obj.V = gcs.ObjView{Generation: obj.V.Generation} // metadata is gone; content, size and generation stay
+		obj.Composite = true                              // MD5 lived in the sidecar: not constrained any more
+		return "", ""
+	case "BareFile":
+		// a bare content file dropped into the bucket directory (legacy layout) must be served as an object
+		if w.dir == "" || mdl.Buckets[o.Bucket] == nil || mdl.Get(o.Bucket, o.Name) != nil {
+			return "", ""
+		}
+		p := filepath.Join(w.dir, o.Bucket, o.Name)
+		_ = os.MkdirAll(filepath.Dir(p), 0o777)
+		if err := os.WriteFile(p, o.Data, 0o666); err != nil {
+			return fail("internal", "cannot write bare file: %v", err)
+		}
+		mdl.Buckets[o.Bucket][o.Name] = &gcs.MObj{Content: append([]byte(nil), o.Data...), Composite: true}
+		return "", ""
 	}
 	return fail("internal", "unknown op kind")
 }
